@@ -75,3 +75,10 @@ d = json.load(open(cpath))
 d['memo'] = inv
 json.dump(d, open(cpath, 'w'), indent=0, sort_keys=True)
 print(len(inv), 'functions with memo tables / registries')
+
+# spec grammar and lexer tables (stonelint/grammar.py)
+from stonelint import grammar
+gref = grammar.build_reference(pm1)
+json.dump(gref, open(os.path.join(HERE, 'reference', 'grammar.json'), 'w'), indent=0, sort_keys=True)
+print(len(gref['grammar']['productions']), 'productions,',
+      sum(len(v) for v in gref['lexer']['rules'].values()), 'lexer rules')
